@@ -831,7 +831,14 @@ pub fn triggers(src: &str, root: &SyntaxNode) -> Vec<&'static str> {
                         // every unit smaller than the text before the marker
                         let tight_left = f.node.children().next().is_some_and(|c| c.kind() != K::Space);
                         let tight_right = f.node.children().last().is_some_and(|c| !matches!(c.kind(), K::Space | K::Parbreak));
-                        if tight_left && tight_right && first.is_some_and(|c| syn::has_nl(&syn::text_of(c))) {
+                        // ... and only when every line break of the body is a paragraph break: typstyle's
+                        // "is this body multi-line" attribute looks at Space tokens only, so such a body counts
+                        // as single-line and the bracket is not broken (with a plain line break somewhere the
+                        // item moves to its own line and all is well -- seeded change C02-2 lives there)
+                        let plain_break = syn::any_node(f.node, &mut |x| {
+                            (x.kind() == K::Space && syn::has_nl(x.text())) || (x.kind() == K::BlockComment && syn::has_nl(x.text()))
+                        });
+                        if tight_left && tight_right && !plain_break && first.is_some_and(|c| syn::has_nl(&syn::text_of(c))) {
                             add("R31s");
                         }
                     }
